@@ -187,9 +187,13 @@ async def to_async_iter(iterable: Iterable[T]) -> AYields[T]:
             yield x
         return
 
+    stopped = False  # Set if the consumer gives up early
+
     def _queue_elements() -> None:
         try:
             for x in iterable:
+                if stopped:
+                    break
                 put(x)
         finally:
             put(_DONE)
@@ -201,11 +205,18 @@ async def to_async_iter(iterable: Iterable[T]) -> AYields[T]:
         q.put_nowait,  # type: ignore[arg-type]
         # ^ Type stubs don't understand partial will pass args later
     )
-    with ThreadPoolExecutor(1) as pool:
-        future = loop.run_in_executor(pool, _queue_elements)
+    pool = ThreadPoolExecutor(1)
+    future = loop.run_in_executor(pool, _queue_elements)
+    try:
         while (i := await q.get()) is not _DONE:
             yield i  # type: ignore
         await future  # Bubble any errors
+    finally:
+        # If the consumer stopped early the thread may still be blocked
+        # in the iterator: joining it would block the event loop. It
+        # exits by itself once its current step is done.
+        stopped = True
+        pool.shutdown(wait=future.done())
 
 
 def to_sync_iter(iterable: AsyncIterable[T],
